@@ -63,6 +63,13 @@ def run(P, rep, tier):
     rep.floor("C08.R1", 25, "protocol members")
     rep.floor("C08.R2", 12, "tainted flows")
     rep.floor("C08.R3", 8)
+    # refinement against the pinned tree for every function the rules above looked at (rules/pinned.py)
+    import os as _os
+
+    if not _os.environ.get("MDSA_PINNED_GEN"):
+        from .pinned import refine
+
+        refine(P, rep, ctx, "C08")
 
 
 # ------------------------------------------------------------------------------------------- R1
